@@ -1,11 +1,206 @@
-//! C10 — not built yet.
+//! C10 — files of format versions 1, 2, 3 (encoded by the Coq reference encoder), golden files,
+//! every container type, and the classification of short / unsupported inputs by Fst::new.
+use crate::c03::{bound_universe, fmt_calls, parse_calls};
 use crate::common::*;
+use crate::core::*;
+use fst::raw::{Error as RawError, Fst};
+use fst::{IntoStreamer, Streamer};
+use std::borrow::Cow;
+use std::io::Write;
+
 pub struct P;
+
+fn model_exe() -> std::path::PathBuf {
+    if let Ok(p) = std::env::var("VERIF_MODEL_CORE") {
+        return p.into();
+    }
+    // harness/target/release/fstv-harness -> ../../../ocaml/build/model_core
+    let exe = std::env::current_exe().unwrap();
+    exe.parent().unwrap().join("../../../ocaml/build/model_core")
+}
+
+/// encode (version, ops) lists with the Coq reference encoder (extracted model, `encode` mode)
+fn encode_all(reqs: &[(u64, Vec<Op>)]) -> Vec<Vec<u8>> {
+    let mut child = std::process::Command::new(model_exe())
+        .stdin(std::process::Stdio::piped())
+        .stdout(std::process::Stdio::piped())
+        .spawn()
+        .expect("model_core not built");
+    {
+        let mut stdin = child.stdin.take().unwrap();
+        for (v, ops) in reqs {
+            writeln!(stdin, "encode {} {}", v, fmt_ops(ops)).unwrap();
+        }
+    }
+    let out = child.wait_with_output().unwrap();
+    String::from_utf8(out.stdout).unwrap().lines().map(unhex).collect()
+}
+
+fn run_queries<D: AsRef<[u8]>>(f: &Fst<D>, probes: &[Vec<u8>], ranges: &[Vec<(u8, Vec<u8>)>]) -> String {
+    let kvs = f.stream().into_byte_vec();
+    let g: Vec<String> = probes.iter().map(|p| {
+        let v = f.get(p);
+        assert_eq!(v.is_some(), f.contains_key(p));
+        v.map(|o| o.value().to_string()).unwrap_or("~".into())
+    }).collect();
+    let r: Vec<String> = ranges.iter().map(|calls| {
+        let mut rb = f.range();
+        for (k, b) in calls {
+            rb = match k { 0 => rb.ge(b), 1 => rb.gt(b), 2 => rb.le(b), _ => rb.lt(b) };
+        }
+        fmt_kvs(&rb.into_stream().into_byte_vec())
+    }).collect();
+    format!("c={};len={};g={};r={}", fmt_kvs(&kvs), f.len(), g.join(","), r.join("/"))
+}
+
 impl Prop for P {
-    fn generate(&self, _tier: Tier, _rng: &mut Rng, _stats: &mut Stats) -> Vec<String> {
-        vec![]
+    fn generate(&self, tier: Tier, rng: &mut Rng, stats: &mut Stats) -> Vec<String> {
+        let mut cases = vec![];
+        // 1. classification: every length 0..40 x version field values
+        for l in 0..=40u64 {
+            for v in [0u64, 1, 2, 3, 4, 5, 255, 256, u64::MAX] {
+                cases.push(format!("openclass {} {}", l, v));
+                stats.bump("openclass");
+            }
+        }
+        // 2. reference-encoded v1 / v2 / v3 files
+        let nrand = match tier { Tier::Quick => 120, Tier::Thorough => 2500, Tier::Wide => 500 };
+        let mut sets = crate::c02::standard_keysets(tier, rng, stats, nrand);
+        sets.retain(|ks| ks.len() <= 300 && ks.iter().all(|k| k.len() <= 400));
+        let mut reqs = vec![];
+        let mut meta = vec![];
+        for ks in sets {
+            let p = rng.below(NPATTERNS as u64) as usize;
+            let vals = value_pattern(p, ks.len(), rng);
+            let ops = map_ops(&with_values(&ks, &vals));
+            let versions: Vec<u64> = if ks.len() > 40 || rng.chance(1, 3) { vec![1, 2, 3] } else { vec![1 + rng.below(2)] };
+            let probes = { let mut ps = probes_for(&ks, rng, false); while ps.len() > 60 { let i = rng.below(ps.len() as u64) as usize; ps.remove(i); } ps };
+            let bs = bound_universe(&ks, rng, 20);
+            let mut rs = vec![vec![]];
+            for _ in 0..6 {
+                let mut c = vec![];
+                if rng.chance(2, 3) { c.push((rng.below(2) as u8, rng.pick(&bs).clone())); }
+                if rng.chance(2, 3) { c.push((2 + rng.below(2) as u8, rng.pick(&bs).clone())); }
+                rs.push(c);
+            }
+            for v in versions {
+                reqs.push((v, ops.clone()));
+                meta.push((v, ops.clone(), probes.clone(), rs.clone()));
+                stats.bump(&format!("encoded_v{}", v));
+            }
+        }
+        let enc = encode_all(&reqs);
+        assert_eq!(enc.len(), meta.len(), "reference encoder produced {} of {} files", enc.len(), meta.len());
+        for (bytes, (v, ops, probes, rs)) in enc.iter().zip(meta.iter()) {
+            cases.push(format!(
+                "old {} {} {} ; {} ; {}",
+                v, hex(bytes), fmt_ops(ops),
+                probes.iter().map(|p| hex(p)).collect::<Vec<_>>().join(" "),
+                rs.iter().map(|c| fmt_calls(c)).collect::<Vec<_>>().join("/")
+            ));
+        }
+        // 3. golden v3 files written by the pinned revision
+        if let Ok(rd) = std::fs::read_dir(exe_root().join("golden")) {
+            let mut names: Vec<_> = rd.filter_map(|e| e.ok()).map(|e| e.path()).filter(|p| p.extension().map(|x| x == "fst").unwrap_or(false)).collect();
+            names.sort();
+            for p in names {
+                let bytes = std::fs::read(&p).unwrap();
+                let ops_file = p.with_extension("ops");
+                let ops = std::fs::read_to_string(&ops_file).unwrap_or_default();
+                cases.push(format!("old 3 {} {} ; {} ; none", hex(&bytes), ops.trim(), ""));
+                stats.bump("golden_files");
+            }
+        }
+        cases
     }
-    fn execute(&self, _case: &str) -> String {
-        String::new()
+    fn nontrivial(&self, case: &str) -> bool {
+        case.starts_with("old") && case.contains(',')
     }
+    fn execute(&self, case: &str) -> String {
+        if let Some(rest) = case.strip_prefix("openclass ") {
+            let mut it = rest.split(' ');
+            let l: usize = it.next().unwrap().parse().unwrap();
+            let v: u64 = it.next().unwrap().parse().unwrap();
+            // a header-only probe: version field (when it fits), everything else zero, but with a footer that
+            // describes the empty FST of that version when the length allows it
+            let mut bytes = vec![0u8; l];
+            if l >= 8 {
+                bytes[..8].copy_from_slice(&v.to_le_bytes());
+            }
+            let class = match Fst::new(bytes) {
+                Ok(_) => "ok",
+                Err(fst::Error::Fst(RawError::Version { expected, got })) => {
+                    assert_eq!(got, v);
+                    assert_eq!(expected, 3);
+                    "version"
+                }
+                Err(fst::Error::Fst(RawError::Format { size })) => {
+                    assert_eq!(size, l);
+                    "format"
+                }
+                Err(_) => "other",
+            };
+            let bad_version = v == 0 || v > 3;
+            let canon = if (8..32).contains(&l) && bad_version && (class == "version" || class == "format") { "version-or-format" } else { class };
+            return format!("S:{}\tM:{}\tX:ok", canon, canon);
+        }
+        let rest = &case["old ".len()..];
+        let parts: Vec<&str> = rest.split(';').map(|s| s.trim()).collect();
+        let hd: Vec<&str> = parts[0].split(' ').collect();
+        let v: u64 = hd[0].parse().unwrap();
+        let bytes = unhex(hd[1]);
+        let probes: Vec<Vec<u8>> = parts[1].split(' ').filter(|s| !s.is_empty()).map(unhex).collect();
+        let ranges: Vec<Vec<(u8, Vec<u8>)>> = parts[2].split('/').map(|r| parse_calls(r.trim())).collect();
+        let mut x = String::from("ok");
+        // Vec<u8>
+        let f = match Fst::new(bytes.clone()) {
+            Ok(f) => f,
+            Err(e) => return format!("S:openfail:{}\tM:openfail\tX:ok", e),
+        };
+        let s = run_queries(&f, &probes, &ranges);
+        // borrowed slice, Cow, memory map, map_data
+        let b = Fst::new(&bytes[..]).map(|f| run_queries(&f, &probes, &ranges));
+        let c = Fst::new(Cow::Borrowed(&bytes[..])).map(|f| run_queries(&f, &probes, &ranges));
+        let c2 = Fst::new(Cow::<[u8]>::Owned(bytes.clone())).map(|f| run_queries(&f, &probes, &ranges));
+        let md = Fst::new(bytes.clone()).unwrap().map_data(|d| std::sync::Arc::<[u8]>::from(d)).map(|f| run_queries(&f, &probes, &ranges));
+        let dir = exe_root().join("harness/target/c10-mmap");
+        let _ = std::fs::create_dir_all(&dir);
+        let path = dir.join(format!("f{:?}-{}.fst", std::thread::current().id(), bytes.len()));
+        std::fs::write(&path, &bytes).unwrap();
+        let mm = {
+            let file = std::fs::File::open(&path).unwrap();
+            let mmap = unsafe { memmap2::Mmap::map(&file).unwrap() };
+            Fst::new(mmap).map(|f| run_queries(&f, &probes, &ranges))
+        };
+        let _ = std::fs::remove_file(&path);
+        for (name, r) in [("&[u8]", b), ("Cow::Borrowed", c), ("Cow::Owned", c2), ("map_data(Arc<[u8]>)", md), ("Mmap", mm)] {
+            match r {
+                Ok(r) if r == s => {}
+                Ok(_) => x = format!("container {} answers differently from Vec<u8>", name),
+                Err(e) => x = format!("container {} fails to open: {}", name, e),
+            }
+        }
+        // verify: ChecksumMissing for versions without a checksum, Ok for version 3
+        match (v, f.verify()) {
+            (3, Ok(())) => {}
+            (1, Err(fst::Error::Fst(RawError::ChecksumMissing))) | (2, Err(fst::Error::Fst(RawError::ChecksumMissing))) => {}
+            (_, r) => x = format!("verify() on a version {} file gave {:?}", v, r.map_err(|e| e.to_string())),
+        }
+        // set operations over the old file: union with itself
+        {
+            let mut u = f.op().add(&f).union();
+            let mut n = 0;
+            while let Some((_, outs)) = u.next() {
+                if outs.len() != 2 { x = "union of an old file with itself: wrong outs".into(); }
+                n += 1;
+            }
+            if n != f.len() { x = format!("union of an old file with itself yields {} keys, len() = {}", n, f.len()); }
+        }
+        format!("S:{}\tM:{}\tX:{}", s, s, x)
+    }
+}
+
+pub fn exe_root() -> std::path::PathBuf {
+    let exe = std::env::current_exe().unwrap();
+    exe.parent().unwrap().join("../../..").canonicalize().unwrap_or_else(|_| "/verif".into())
 }
